@@ -1,3 +1,24 @@
+(* ConcActorsP: proofs about the actor model of Model/ConcActors.v.
+
+   Main results (all for every capacity K >= 1, any number of topics, subscriptions,
+   clients and requests, any schedule; LArrive and LDrop steps are part of [reachable]):
+
+     C07_progress                 drain = true: something outstanding => a server step is enabled
+     C07_bounded                  a run of server steps from a reachable state has at most
+                                  [measure st] steps ([measure_step]: each one decreases it)
+     C07_terminates               drain = true: quiescence with nothing outstanding is reached
+                                  within [measure st] server steps
+     C07_refuted_without_drain    drain = false, K = 2 (and _16: K = 16): a reachable state with
+                                  a Publish and a Delete pending and no server step enabled
+     C16_attached                 drain = true: at quiescence a stored, non-deleted subscription
+                                  whose topic is alive is attached to it
+     C16_no_wedge                 progress after any continuation (drops included)
+     C16_effect_sub / _topic      mailboxes are FIFO queues that only the owner dequeues
+     C16_drop_local               LDrop changes nothing but the dropped client task
+     C16_effect_independent       server steps do not depend on the client tasks
+     quiescent_iff_idle           quiescent <-> busyb = false (reachable, drain = true)
+   and examples by vm_compute at the end. *)
+
 From Coq Require Import List NArith Arith Bool Lia.
 Import ListNotations.
 From Deltio Require Import Model.ConcActors.
@@ -1251,3 +1272,209 @@ Proof.
   intros cfg st c p Hn Hp. unfold step, step_drop. rewrite Hn.
   destruct p; try discriminate Hp; eexists; reflexivity.
 Qed.
+
+(* ================================================================== *)
+(* C16_effect: a request that reached a mailbox stays there, in order, until the owner
+   dequeues (= handles) it; nothing else removes it, in particular not LDrop.  The only
+   other way out is the exit of a deleted subscription, which completes it with an error. *)
+
+Lemma answer_remove_mbox : forall s ss j sb,
+  nth_error ss j = Some sb ->
+  exists sb', nth_error (answer_remove s ss) j = Some sb' /\ s_mbox sb' = s_mbox sb.
+Proof.
+  intros s ss j sb Hn. unfold answer_remove.
+  destruct (nth_error ss s) as [sb0|] eqn:E; eauto.
+  destruct (s_phase sb0) as [|[] stash|] eqn:Ep; eauto.
+  destruct (Nat.eq_dec s j) as [->|N].
+  - eexists. split. eapply nth_set_same; eauto. simpl. congruence.
+  - exists sb. rewrite nth_set_neq; auto.
+Qed.
+
+Ltac same_entry :=
+  try match goal with
+  | A : nth_error ?l ?x = Some ?a, B : nth_error ?l ?x = Some ?b |- _ =>
+      assert (a = b) by congruence; subst a
+  end.
+
+Ltac at_set s1 sb1 :=
+  match goal with |- context [set ?i _ _] =>
+    let E := fresh "E" in
+    destruct (Nat.eq_dec i s1) as [E|E];
+    [rewrite <- E in *; same_entry; eexists; split; [eapply nth_set_same; eauto|sproj]
+    |exists sb1; rewrite nth_set_neq; auto]
+  end.
+
+Theorem C16_effect_sub : forall cfg st l st' s sb,
+  step cfg st l = Some st' -> nth_error (subs st) s = Some sb ->
+  exists sb', nth_error (subs st') s = Some sb' /\
+    ((exists new, s_mbox sb' = s_mbox sb ++ new) \/
+     (l = LSDeq s /\ exists m, s_mbox sb = m :: s_mbox sb') \/
+     (l = LSFinish s /\ s_phase sb' = SExited /\ s_mbox sb' = [])).
+Proof.
+  intros cfg st l st' s1 sb1 H Hn.
+  assert (Z : exists new, s_mbox sb1 = s_mbox sb1 ++ new) by (exists []; now rewrite app_nil_r).
+  step_inv H; sproj; eauto.
+  all: try (exists sb1; split; [now apply nth_snoc_old|auto]; fail).
+  all: try (destruct (answer_remove_mbox s _ _ Hn) as (sb' & Hs' & Em); exists sb'; split; auto;
+            left; exists []; rewrite app_nil_r; auto; fail).
+  all: at_set s1 sb1.
+  all: try (left; eexists; reflexivity).
+  all: try (left; exists []; rewrite app_nil_r; reflexivity).
+  all: try (right; left; split; [reflexivity|eexists; eassumption]).
+  all: try (right; right; repeat split; reflexivity).
+Qed.
+
+Theorem C16_effect_topic : forall cfg st l st' t tp,
+  step cfg st l = Some st' -> nth_error (topics st) t = Some tp ->
+  exists tp', nth_error (topics st') t = Some tp' /\
+    ((exists new, t_mbox tp' = t_mbox tp ++ new) \/
+     (l = LTDeq t /\ exists m, t_mbox tp = m :: t_mbox tp')).
+Proof.
+  intros cfg st l st' t1 tp1 H Hn.
+  assert (Z : exists new, t_mbox tp1 = t_mbox tp1 ++ new) by (exists []; now rewrite app_nil_r).
+  step_inv H; sproj; eauto.
+  all: try (exists tp1; split; [now apply nth_snoc_old|auto]; fail).
+  all: at_set t1 tp1.
+  all: try (left; eexists; reflexivity).
+  all: try (left; exists []; rewrite app_nil_r; reflexivity).
+  all: try (right; split; [reflexivity|eexists; eassumption]).
+Qed.
+
+(* abandoning a request touches nothing but the client task itself *)
+Theorem C16_drop_local : forall cfg st c st',
+  step cfg st (LDrop c) = Some st' ->
+  topics st' = topics st /\ subs st' = subs st /\ helpers st' = helpers st /\
+  forall c', c' <> c -> nth_error (clients st') c' = nth_error (clients st) c'.
+Proof.
+  intros cfg st c st' H. step_inv H; sproj; repeat split; auto; intros; apply nth_set_neq; auto.
+Qed.
+
+(* the server-side handling of a request does not look at the client tasks: it has the same
+   effect on every actor and helper whether or not the requester is still there *)
+Definition actors (st : state) := (topics st, subs st, helpers st).
+
+Definition server_label (l : label) : bool :=
+  match l with LArrive _ | LDrop _ | LCSend _ => false | _ => true end.
+
+Ltac destr_goal :=
+  match goal with
+  | |- context [match ?x with _ => _ end] =>
+      lazymatch x with
+      | context [match _ with _ => _ end] => fail
+      | _ => destruct x eqn:?
+      end
+  end.
+
+Theorem C16_effect_independent : forall cfg st1 st2 l,
+  actors st1 = actors st2 -> server_label l = true ->
+  match step cfg st1 l, step cfg st2 l with
+  | Some a, Some b => actors a = actors b
+  | None, None => True
+  | _, _ => False
+  end.
+Proof.
+  intros cfg [t1 s1 c1 h1] [t2 s2 c2 h2] l H Hl. unfold actors in H. simpl in H.
+  injection H as -> -> ->.
+  destruct l; try discriminate Hl;
+  unfold step, step_hsend, step_tdeq, step_post, step_tfinish, step_sdeq, step_ssend,
+    step_sfinish, topic_alive; sproj;
+  repeat destr_goal; auto.
+Qed.
+
+(* for reachable states of the fixed code, quiescence is exactly "nothing outstanding" *)
+Theorem quiescent_iff_idle : forall cfg st,
+  1 <= K cfg -> drain cfg = true -> reachable cfg st ->
+  (quiescent cfg st <-> busyb st = false).
+Proof.
+  intros cfg st HK HD R. split.
+  - intros Q. destruct (busyb st) eqn:B; auto. exfalso.
+    destruct (C07_progress HK HD R (busyb_busy _ B)) as (l & st' & He & Hs).
+    rewrite (Q l He) in Hs. discriminate.
+  - apply not_busy_quiescent.
+Qed.
+
+(* ================================================================== *)
+(* Examples (vm_compute)                                                *)
+
+(* one topic with one attached subscription *)
+Definition setup : list label :=
+  [LArrive ANewTopic; LArrive (ACreate 0); LHSend 0; LTDeq 0].
+
+(* a burst of k+4 Generic requests, a Delete and a Publish on one subscription *)
+Definition burst (k : nat) : list label :=
+  setup ++ map (fun _ => LArrive (AReqS 0 KGeneric)) (seq 0 (k + 4)) ++
+  [LArrive (AReqS 0 KDelete); LArrive (AReqT 0 KPublish)].
+
+Definition all_done (st : state) : bool :=
+  forallb (fun p => match p with CDone _ => true | _ => false end) (clients st).
+
+Example burst_runs_to_quiescence_K2 :
+  exists st0 st ls, run (cfg_fixed 2) init (burst 2) = Some st0 /\
+    auto (cfg_fixed 2) 200 st0 = (st, ls) /\
+    busyb st = false /\ all_done st = true /\ length (clients st) = 9.
+Proof. do 3 eexists. repeat (split; [vm_compute; reflexivity|]). vm_compute; reflexivity. Qed.
+
+Example burst_runs_to_quiescence_K16 :
+  exists st0 st ls, run (cfg_fixed 16) init (burst 16) = Some st0 /\
+    auto (cfg_fixed 16) 400 st0 = (st, ls) /\
+    busyb st = false /\ all_done st = true /\ length (clients st) = 23.
+Proof. do 3 eexists. repeat (split; [vm_compute; reflexivity|]). vm_compute; reflexivity. Qed.
+
+(* the burst, scheduled so that the Delete is being handled while the mailbox is full and
+   the topic is publishing: the original code stops for ever, the fixed code finishes *)
+Example burst_original_code_deadlocks :
+  exists st, run (cfg_orig 2) init (deadlock_schedule 2) = Some st /\
+    first_enabled (cfg_orig 2) st = None /\ busyb st = true.
+Proof. eexists. repeat (split; [vm_compute; reflexivity|]). vm_compute; reflexivity. Qed.
+
+(* C16: CreateSubscription whose caller goes away right after step 1, while the topic
+   mailbox is full (the helper's send has to wait): the subscription still ends attached *)
+Definition dropped_create : list label :=
+  [LArrive ANewTopic;
+   LArrive (AReqT 0 KGenericT); LCSend 0; LArrive (AReqT 0 KGenericT); LCSend 1;
+   LArrive (ACreate 0);        (* client 2, helper 0, subscription 0; topic mailbox is full *)
+   LDrop 2].                   (* the caller abandons the Create *)
+
+Example dropped_create_ends_attached :
+  exists st0 st ls, run (cfg_fixed 2) init dropped_create = Some st0 /\
+    step (cfg_fixed 2) st0 (LHSend 0) = None /\       (* the helper is blocked at that point *)
+    nth_error (clients st0) 2 = Some CDropped /\
+    auto (cfg_fixed 2) 100 st0 = (st, ls) /\ busyb st = false /\
+    nth_error (clients st) 2 = Some CDropped /\
+    option_map t_atts (nth_error (topics st) 0) = Some [0] /\
+    option_map s_exists (nth_error (subs st) 0) = Some true.
+Proof. do 3 eexists. repeat (split; [vm_compute; reflexivity|]). vm_compute; reflexivity. Qed.
+
+(* Finding (model level): the converse of C16_attached does not hold.  A Delete that is
+   handled completely between step 1 of a Create and the helper's send leaves the exited
+   subscription attached for ever; every later Publish on the topic then fails (the post to
+   the closed mailbox fails).  In the code the window is: the spawned attach task has not
+   been polled yet while another request deletes the just-stored subscription. *)
+Definition stale_attach : list label :=
+  [LArrive ANewTopic; LArrive (ACreate 0);
+   LArrive (AReqS 0 KDelete); LCSend 1; LSDeq 0; LSSend 0; LTDeq 0; LSFinish 0;
+   LHSend 0; LTDeq 0;
+   LArrive (AReqT 0 KPublish); LCSend 2; LTDeq 0; LPost 0 0; LTFinish 0].
+
+Example stale_attachment_after_delete :
+  exists st, run (cfg_fixed 2) init stale_attach = Some st /\
+    busyb st = false /\
+    option_map s_phase (nth_error (subs st) 0) = Some SExited /\
+    option_map t_atts (nth_error (topics st) 0) = Some [0] /\
+    clients st = [CDone true; CDone true; CDone false].   (* the Publish fails *)
+Proof. eexists. repeat (split; [vm_compute; reflexivity|]). vm_compute; reflexivity. Qed.
+
+(* ================================================================== *)
+Print Assumptions C07_progress.
+Print Assumptions C07_bounded.
+Print Assumptions C07_terminates.
+Print Assumptions C07_refuted_without_drain.
+Print Assumptions C07_refuted_without_drain_16.
+Print Assumptions C16_attached.
+Print Assumptions C16_no_wedge.
+Print Assumptions C16_effect_sub.
+Print Assumptions C16_effect_topic.
+Print Assumptions C16_drop_local.
+Print Assumptions C16_effect_independent.
+Print Assumptions dropped_create_ends_attached.
+Print Assumptions burst_runs_to_quiescence_K16.
